@@ -365,6 +365,20 @@ Example two_holders_redelivery_refuted :
   /\ issued c7_tok (snd (wrun_log c7_cfg c7_w0 c7_f9b)) = [1; 1]%N.
 Proof. vm_compute. repeat split; reflexivity. Qed.
 
+(* calls that cannot succeed are not constrained: an ordinary transaction naming ESDTNFTCreateRoleTransfer (sender
+   account present), ESDTSetRole / ESDTUnSetRole of the create role by somebody who is not the system contract *)
+Definition c7_noise : list wop :=
+  [ c7_set_role 0 c7_alice c7_tok; c7_create 0 c7_alice c7_tok;
+    OCall 0 CRT (c7_in c7_carol c7_carol [c7_tok; u64_bytes 0] true true);
+    OCall 0 FSetRole (c7_in c7_carol c7_carol [c7_tok; C.ESDTRoleNFTCreate] true true);
+    OCall 0 FUnSetRole (c7_in c7_carol c7_alice [c7_tok; C.ESDTRoleNFTCreate] false true);
+    c7_create 0 c7_carol c7_tok; c7_create 0 c7_alice c7_tok ].
+Example failing_attempts_are_disciplined :
+  disciplinedb c7_cfg c7_tok false c7_w0 c7_noise = true /\ nowrapb c7_cfg c7_tok c7_w0 c7_noise = true
+  /\ length (snd (wrun_log c7_cfg c7_w0 c7_noise)) = 3%nat
+  /\ issued c7_tok (snd (wrun_log c7_cfg c7_w0 c7_noise)) = [1; 2]%N.
+Proof. vm_compute. repeat split; reflexivity. Qed.
+
 (* A history with repeated deliveries that the permissive discipline of C07_Redelivery.v accepts (and the at-most-once
    discipline does not): the hand-over message is first delivered WITHOUT being consumed, delivered again with nothing
    created in between, the new holder creates, hands over to carol across shards (the stale first message is still
